@@ -262,6 +262,46 @@ def run(prop, tier):
         if why:
             rep.violation({"kind": "mutated-source", "why": why.split(":")[0]},
                           {"cmd": "lua-run", "srchex": c["srchex"], "observed": {k: v for k, v in mouts[i].items() if k != "events"}, "why": why})
+    # ---------- (2c) byte mutations of binary chunks (string.dump output), loaded in mode "b" and then run
+    seeds_src = ["local function f(a) local s = 'hello world constant' local t = {1, 2, 3} for i = 1, 3 do t[i] = t[i] + a end return s .. a, 1.5, 42, #t end emit(string.dump(f))",
+                 "local up = 5 local function g(...) local n = select('#', ...) local function h() up = up + n return up end return h(), ... end emit(string.dump(g))",
+                 "emit(string.dump(load('local t = setmetatable({}, {__index = function(t, k) return k end}) local x <close> = nil for k, v in pairs({a = 1}) do t[k] = v end return t.zz, 2^53, -0.0, \"\\0\\255\"')))"]
+    douts = run_lua_cases(drv, [{"id": i, "src": sc, "timeout": 20000} for i, sc in enumerate(seeds_src)])
+    dumps = []
+    for i in range(len(seeds_src)):
+        ev = (douts[i].get("events") or [[None]])[0][0]
+        if not isinstance(ev, dict) or not ("s" in ev or "x" in ev):
+            raise Infra("could not obtain a dump to mutate: %r" % (douts[i],))
+        dumps.append(bytes.fromhex(ev["x"]) if "x" in ev else ev["s"].encode("latin-1"))
+    bcases, bmeta = [], []
+    nmut = 150 if tier == "quick" else 1500
+    for di, d in enumerate(dumps):
+        positions = list(range(len(d)))
+        rng.shuffle(positions)
+        for pos in positions[:nmut]:
+            b = bytearray(d)
+            b[pos] = rng.choice([0x00, 0x01, 0x7f, 0x80, 0xff, (b[pos] + 1) & 0xff, rng.randrange(256)])
+            if rng.random() < 0.1:
+                b = b[:pos]
+            lit = "".join("\\x%02x" % c for c in b)
+            src = ('local g = load("%s", "=m", "b")\nif not g then emit("rejected") return end\nemit("loaded")\n'
+                   'local ok = pcall(g, 1, 2)\nemit("ran", ok)' % lit)
+            bcases.append({"id": len(bcases), "src": src, "timeout": 20000, "cpu": 2000000, "mem": 200000000})
+            bmeta.append((di, pos))
+    bouts = run_lua_cases(drv, bcases)
+    cov["mutated_binary_chunks"] = len(bcases)
+    cov["mutated_binary_outcomes"] = {}
+    for i, (di, pos) in enumerate(bmeta):
+        o = bouts[i]
+        cov["evaluations"] += 1
+        evs = [e[0].get("s") for e in (o.get("events") or []) if e and isinstance(e[0], dict)]
+        phase = "run" if "loaded" in evs else "load"
+        why = crash_why(o)
+        key = "%s:%s" % (phase, (why or (evs[-1] if evs else ("killed" if o.get("status") == "killed" else "none"))).split(":")[0])
+        cov["mutated_binary_outcomes"][key] = cov["mutated_binary_outcomes"].get(key, 0) + 1
+        if why:
+            rep.violation({"kind": "mutated-binary", "phase": phase, "why": why.split(":")[0]},
+                          {"cmd": "lua-run", "dump": di, "position": pos, "src_head": bcases[i]["src"][:400], "observed": {k: v for k, v in o.items() if k != "events"}, "why": why})
     rep.sample({"shape": "items-tail", "n": 256, "source_head": shape_src("items-tail", 256)[:120]})
     rep.sample({"library_edge_values": EDGE[:12]})
     cov["rule"] = ("limit cases: (shape, n) pairs enumerated by Limits.tla, non-trivial = outcome classes other than plain success; library calls: function x edge-value tuples; "
